@@ -112,6 +112,7 @@ from ...ast.fpyast import (
     Range3,
     Rational,
     RationalVal,
+    RealVal,
     ReturnStmt,
     Round,
     Signbit,
@@ -2393,6 +2394,11 @@ class CppEmitter(Visitor):
                     at=e,
                 )
             arg_tys.append(ty)
+        if any(not isinstance(a, Var | RealVal | BoolVal) for a in e.args[1:-1]):
+            # a middle operand is written in two pairs; one that is more than a
+            # name or a literal (a call that stores through its argument) must
+            # still be evaluated once, and only if the pairs before it held
+            return self._compare_chain_once(e, args, arg_tys)
         clauses = []
         for i, op in enumerate(e.ops):
             common = scalar_sup([arg_tys[i], arg_tys[i + 1]])
@@ -2402,6 +2408,21 @@ class CppEmitter(Visitor):
         if len(clauses) == 1:
             return clauses[0]
         return '(' + ' && '.join(clauses) + ')'
+
+    def _compare_chain_once(self, e: Compare, args: list[str], arg_tys: list) -> str:
+        """`a < f(xs) < c` with every operand evaluated once, left to right,
+        stopping at the first pair that fails: an immediately invoked lambda, so
+        the chain stays an expression wherever it stands."""
+        names = [self._fresh_temp() for _ in args]
+        body = [f'auto&& {names[0]} = {args[0]};']
+        for i, op in enumerate(e.ops):
+            body.append(f'auto&& {names[i + 1]} = {args[i + 1]};')
+            common = scalar_sup([arg_tys[i], arg_tys[i + 1]])
+            lhs = self._maybe_cast(names[i], arg_tys[i], common)
+            rhs = self._maybe_cast(names[i + 1], arg_tys[i + 1], common)
+            body.append(f'if (!({lhs} {op.symbol()} {rhs})) return false;')
+        body.append('return true;')
+        return '([&]() -> bool { ' + ' '.join(body) + ' }())'
 
     def _visit_foreign(self, e, ctx):
         self._unsupported('ForeignVal', at=e)
